@@ -1376,7 +1376,7 @@ def run_sliced(ctx, fn, items, reserve, label, handle, always_first=False):
     pos, size = 0, 8
     _DEADLINE[0] = ctx.t_run0 + ctx.budget * (1.0 - reserve) + 0.04 * ctx.budget
     if always_first:
-        _DEADLINE[0] = max(_DEADLINE[0], time.time() + 0.25 * ctx.budget)
+        _DEADLINE[0] = max(_DEADLINE[0], time.time() + 0.1 * ctx.budget)
     try:
         while pos < len(items) and (ctx.time_left() > reserve * ctx.budget or (always_first and pos == 0)):
             t = time.time()
@@ -1492,7 +1492,7 @@ def oracle(ctx):
             if bad:
                 ctx.violation(bad[0], {"kind": "query", "rows": c["rows"], "exprs": c["exprs"]}, bad[1])
         _STATE["queries"].append(batch)
-    run_sliced(ctx, query_worker, qitems, T_QUERY, "oracle: query() batches", handle_query)
+    run_sliced(ctx, query_worker, qitems, T_QUERY, "oracle: query() batches", handle_query, always_first=True)
 
 
 def model_request(tr, repaired):
